@@ -77,3 +77,14 @@ package udp
 //@ func (*endpoint).HandleControlPacket props C07
 //@   requires e != nil && e.waiterQueue != nil
 //@   modifies e.rcvIcmp, e.rcvIcmpMsg
+
+// C11 (arrivals after the read side was closed are dropped): a shutdown that includes the
+// read direction - alone or together with the write direction - closes the receive side of a
+// bound or connected socket, which is the flag HandlePacket tests; the flags are accumulated.
+//@ func (*endpoint).Shutdown props C11
+//@   requires e != nil && e.waiterQueue != nil
+//@   ensures implies(result == nil && flags & tcpip.ShutdownRead != 0, e.rcvClosed)
+//@   ensures implies(result == nil, e.shutdownFlags == old(e.shutdownFlags) | flags)
+//@   ensures implies(result != nil || flags & tcpip.ShutdownRead == 0, e.rcvClosed == old(e.rcvClosed))
+//@   ensures (result == nil) == (old(e.state) == stateBound || old(e.state) == stateConnected)
+//@   modifies everything()
